@@ -41,6 +41,7 @@ AS_VARIANTS = [
     {"zoo": "Z11", "ground": True},
     {"zoo": "Z12", "wingbox": False},
     {"zoo": "Z12", "wingbox": True},
+    {"zoo": "Z15"},
 ]
 
 NL_KINDS = ["nlbgs_aitken", "nlbgs", "newton"]
@@ -223,7 +224,10 @@ def generate(seed, tier, opts):
     kind = rng.choice(kinds)
     case = {"property": PROP, "seed": seed, "kind": kind, "tighten": dict(DEFAULT_TIGHTEN)}
     if kind == "M":
-        spec = {"zoo": "Z12", "wingbox": rng.random() < 0.4, "npts": rng.choice([2, 2, 3])}
+        if rng.random() < 0.3:
+            spec = {"zoo": "Z15", "npts": 2}
+        else:
+            spec = {"zoo": "Z12", "wingbox": rng.random() < 0.4, "npts": rng.choice([2, 2, 3])}
     elif kind == "S":
         spec = {"zoo": "Z8"}
     else:
@@ -282,25 +286,25 @@ def generate(seed, tier, opts):
             pts.append(draw_point(model, pts, rng, nprng))
         case["points"] = [_jsonable_point(p) for p in pts]
         case["solver"] = [rng.choice(NL_KINDS), rng.choice(LIN_KINDS)] if rng.random() < 0.6 else ["nlbgs_aitken", "direct"]
-        ops = [{"op": "set_point", "k": 0}]
-        n_ops = rng.randint(3, 9)
-        have_run = False
-        while len(ops) < n_ops:
-            r = rng.random()
-            if r < 0.25:
-                ops.append({"op": "set_point", "k": rng.randrange(npts)})
-            elif r < 0.55:
-                ops.append({"op": "run_model"})
-                have_run = True
-            elif r < 0.75:
+        # visits: set a design point, (spoil the guess), (abort), converge, (crash-restart into another
+        # solver pair and converge again)
+        ops = []
+        prev = None
+        for v in range(rng.randint(2, 5)):
+            cands = [i for i in range(npts) if i != prev] or [0]
+            k = rng.choice(cands) if rng.random() < 0.8 else rng.randrange(npts)
+            prev = k
+            ops.append({"op": "set_point", "k": k})
+            if rng.random() < 0.45:
                 ops.append({"op": "guess", "kind": rng.choice(["zeros", "initial", "scale", "donor", "noise"]),
                             "factor": round(rng.choice([rng.uniform(0.1, 1.0), rng.uniform(1.0, 10.0)]), 3),
                             "donor": rng.randrange(npts), "nseed": rng.randrange(10**6)})
-            elif r < 0.88 and have_run:
-                ops.append({"op": "restart_with", "nl": rng.choice(NL_KINDS), "lin": rng.choice(LIN_KINDS)})
-            else:
+            if v > 0 and rng.random() < 0.3:
                 ops.append({"op": "abort", "frac": round(rng.uniform(0.05, 0.95), 4)})
-        ops.append({"op": "run_model"})
+            ops.append({"op": "run_model"})
+            if rng.random() < 0.3:
+                ops.append({"op": "restart_with", "nl": rng.choice(NL_KINDS), "lin": rng.choice(LIN_KINDS)})
+                ops.append({"op": "run_model"})
         case["ops"] = ops
     elif kind == "M":
         npts = spec["npts"]
@@ -311,6 +315,8 @@ def generate(seed, tier, opts):
         for _ in range(rng.randint(2, 5)):
             i = rng.randrange(npts)
             var = rng.choice(["alpha", "rho", "v", "load_factor"])
+            if spec["zoo"] == "Z15" and rng.random() < 0.4:
+                var = rng.choice(["twist_cp_%d" % i, "thickness_cp_%d" % i])  # morph one point's own geometry
             fac = round(rng.uniform(0.85, 1.15), 4)
             edits.append({"point": i, "var": var, "factor": fac})
         case["edits"] = edits
@@ -663,8 +669,17 @@ def _exec_api(case, res, log, probe, violation, check_state, check_round_trip, r
             log.add("abort", at_, st)
             nf = obs.all_finite(obs.read_outputs(model.prob))
             if nf:
-                violation("abort_poisoned", _where(model.prob, nf), float("inf"), 0.0, {"op_index": opi, "nl": nl, "lin": lin})
-                return
+                # a spoiled guess followed by an aborted pass (the solver swallows the child's AnalysisError and
+                # skips the rest of that subsystem) can leave NaN behind: the aborted evaluation's result is
+                # discarded anyway, and NaN is not an admissible guess - do what a user has to do, reset the
+                # guess (DESIGN 12.2 item 4; observed only under Newton after a scaled guess)
+                # Resetting the guess is not enough under Newton with an iterative linear solver (its d_outputs
+                # warm start keeps the NaN): the user has to rebuild the Problem, so that is what happens here.
+                probe("abort_left_nonfinite_state_problem_rebuilt")
+                model = build(nl, lin)
+                model.set_point(points[cur])
+                guess_names = faults.cycle_and_state_vars(model)
+                store.clear()
         elif k == "restart_with":
             if cur is None:
                 continue
@@ -702,7 +717,10 @@ def _exec_multipoint(case, res, log, probe, violation, check_state, check_round_
         before = obs.read_outputs(model.prob)
         i = e["point"] % npts
         v = cur[e["var"]].copy()
-        v[i] *= e["factor"]
+        if e["var"] in model.notes["per_point"]:
+            v[i] *= e["factor"]
+        else:
+            v = v * e["factor"]  # a per-point morphing variable (its name carries the point index)
         cur[e["var"]] = v
         model.set_point({e["var"]: v})
         st = _run(model, res, "edit")
@@ -740,8 +758,17 @@ def _exec_multipoint(case, res, log, probe, violation, check_state, check_round_
         m1 = zoo.build(s1)
         zoo.tighten_coupled(m1, atol=case["tighten"]["atol"])
         pt1 = {}
+        import re
+
         for k, v in cur.items():
-            pt1[k] = np.array([v[j]]) if k in per_point else v
+            mm = re.match(r"^(.*)_(\d+)$", k)
+            if k in per_point:
+                pt1[k] = np.array([v[j]])
+            elif mm and mm.group(1) in ("twist_cp", "thickness_cp"):
+                if int(mm.group(2)) == j:
+                    pt1[mm.group(1) + "_0"] = v
+            else:
+                pt1[k] = v
         m1.set_point(pt1)
         st = _run(m1, res, "single")
         if st != "ok":
